@@ -27,15 +27,16 @@ Section C10.
 
   Notation restrict := (restrict kO kadd kmul ksub Mf Mc dtf dtc t0 nodes_c Qf Qc 1 feval_c Rs Rcoll).
 
-  (* (1) immediately after restriction the coarse defect is the restricted fine defect *)
-  Theorem C10_coarse_defect_is_restricted_fine_defect : forall Fu Ff Ftau,
+  (* (1) immediately after restriction the coarse defect is the restricted fine defect — for any number np of
+         right-hand-side parts (1: generic_implicit / explicit, 2: IMEX, ...) *)
+  Theorem C10_coarse_defect_is_restricted_fine_defect : forall np Fu Ff Ftau,
     (forall m, 1 <= m <= Mf -> (Ftau 1 = None <-> Ftau m = None)) ->
     forall n, 1 <= n <= Mc ->
     sumf kO kadd (fun m => Rcoll n m) 1 Mf = kI ->
-    let G := restrict Fu Ff Ftau in
+    let G := Transfer.restrict kO kadd kmul ksub Mf Mc dtf dtc t0 nodes_c Qf Qc np feval_c Rs Rcoll Fu Ff Ftau in
     forall x,
-      residual_vec kO kadd kmul ksub Mc dtc Qc 1 (Gu G) (Gf G) (Gtau G) n x
-      = sumf kO kadd (fun m => kmul (Rcoll n m) (Rs (residual_vec kO kadd kmul ksub Mf dtf Qf 1 Fu Ff Ftau m) x)) 1 Mf.
+      residual_vec kO kadd kmul ksub Mc dtc Qc np (Gu G) (Gf G) (Gtau G) n x
+      = sumf kO kadd (fun m => kmul (Rcoll n m) (Rs (residual_vec kO kadd kmul ksub Mf dtf Qf np Fu Ff Ftau m) x)) 1 Mf.
   Proof. exact (coarse_defect_is_restricted_fine_defect kO kI kadd kmul ksub kopp Rth Mf Mc dtf dtc t0 nodes_c Qf Qc feval_c Rs Rcoll Rs_add Rs_sub Rs_zero). Qed.
 
   (* (2) prolongation transfers the coarse CORRECTION only *)
@@ -62,12 +63,13 @@ Section C10.
   Proof. exact (two_level_cycle_fixed_point kO kI kadd kmul ksub kopp keqb Rth keqb_true Mf Mc dtf dtc t0 nodes_c Qf Qc feval_c Rs Ps Rcoll Pcoll Rs_add Rs_sub Rs_zero Ps_sub Ps_ext solve_c QIc). Qed.
 End C10.
 
-(* (4) ANY number of levels, ANY number of sweeps per level: one complete multi-level iteration
+(* (4) ANY number of levels, ANY number of sweeps per level, generic_implicit (imex = false) or imex_1st_order (imex = true)
+       sweeps, values-only or values-and-right-hand-sides prolongation per transfer: one complete multi-level iteration
        (Model/MultiLevel.vcycle = it_fine / it_down / it_coarse / it_up of controller_nonMPI on one step, tied to the
        real controller by exact correspondence on 2-4 level runs) returns a fine level that holds its collocation
-       solution unchanged: same values at the initial point and at every node, same right-hand sides.
-       Linear and nonlinear problems alike: only the solver contract, extensionality of eval_f, lower-triangular
-       preconditioners, linear space transfer and unit row sums of Rcoll are used (hier_ok). *)
+       solution (consistent right-hand sides, zero defect incl. tau) unchanged: same values at the initial point and at every
+       node, same right-hand sides.  Linear and nonlinear problems alike: only the solver contract, extensionality of
+       eval_f, (strictly) lower-triangular preconditioners, linear space transfer and unit row sums of Rcoll are used. *)
 Section C10_multilevel.
   Context {K : Type} (kO kI : K) (kadd kmul ksub : K -> K -> K) (kopp : K -> K) (keqb : K -> K -> bool).
   Hypothesis Rth : ring_theory kO kI kadd kmul ksub kopp (@eq K).
@@ -75,21 +77,31 @@ Section C10_multilevel.
   Context {X : Type}.
   Variable t0 : K.
   Theorem C10_multilevel_cycle_fixed_point :
-    forall (rest : list (@xfer K X * @level K X)) (L : @level K X) (tau : nat -> option (X -> K)) (s : @lstate K X),
-      hier_ok kO kI kadd kmul ksub keqb L rest ->
-      holds_solution kO kadd kmul t0 L tau s ->
-      same L (vcycle kO kadd kmul ksub keqb t0 L rest tau s) s.
+    forall (imex : bool) (rest : list (@xfer K X * @level K X)) (L : @level K X) (tau : nat -> option (X -> K)) (s : @lstate K X),
+      hier_ok kO kI kadd kmul ksub keqb imex L rest ->
+      holds_solution kO kadd kmul ksub t0 imex L tau s ->
+      same L (vcycle kO kadd kmul ksub keqb t0 imex L rest tau s) s.
   Proof. exact (vcycle_fixed_point kO kI kadd kmul ksub kopp keqb Rth keqb_true t0). Qed.
+
+  (* what "holds its collocation solution" means in the two cases *)
+  Theorem C10_zero_defect_is_collocation_gi : forall (L : @level K X) tau (s : @lstate K X),
+    zero_defect kO kadd kmul ksub false L tau s <-> collocation1 kO kadd kmul (lM L) (ldt L) (lQ L) (fst s) (snd s) tau.
+  Proof. exact (zero_defect_collocation1 kO kI kadd kmul ksub kopp Rth). Qed.
+  Theorem C10_zero_defect_is_collocation_imex : forall (L : @level K X) tau (s : @lstate K X),
+    zero_defect kO kadd kmul ksub true L tau s <-> collocation2 kO kadd kmul (lM L) (ldt L) (lQ L) (fst s) (snd s) tau.
+  Proof. exact (zero_defect_collocation2 kO kI kadd kmul ksub kopp Rth). Qed.
 End C10_multilevel.
 
 Print Assumptions C10_coarse_defect_is_restricted_fine_defect.
 Print Assumptions C10_prolong_zero_correction.
 Print Assumptions C10_two_level_cycle_fixed_point.
 Print Assumptions C10_multilevel_cycle_fixed_point.
+Print Assumptions C10_zero_defect_is_collocation_gi.
+Print Assumptions C10_zero_defect_is_collocation_imex.
 
 (* Non-vacuity: a concrete three-level hierarchy over Qc (2, 2, 1 nodes; 2+1+1+1+2 sweeps) meets the hypotheses *)
 Example C10_multilevel_hypotheses_satisfiable :
-  hier_ok exK0 exK1 Qcanon.Qcplus Qcanon.Qcmult Qcanon.Qcminus ex_eqb ex_fine ex_rest /\
-  holds_solution exK0 Qcanon.Qcplus Qcanon.Qcmult exK0 ex_fine (fun _ => None) ex_state.
+  hier_ok exK0 exK1 Qcanon.Qcplus Qcanon.Qcmult Qcanon.Qcminus ex_eqb false ex_fine ex_rest /\
+  holds_solution exK0 Qcanon.Qcplus Qcanon.Qcmult Qcanon.Qcminus exK0 false ex_fine (fun _ => None) ex_state.
 Proof. exact (conj ex_hier_ok ex_holds). Qed.
 Print Assumptions C10_multilevel_hypotheses_satisfiable.
